@@ -158,6 +158,14 @@ pub fn schema(profile: Profile) -> Schema {
 
 /// versions from here on always produce token-less documents (used by E4)
 pub const BLANK_VERSIONS: u64 = 5_000_000;
+/// versions in [BIG_VERSIONS, BLANK_VERSIONS) produce long documents (hundreds
+/// to thousands of tokens, ~5-25 KiB of stored text): their segment files and
+/// log records are written with several write calls, not one
+pub const BIG_VERSIONS: u64 = 1_000_000;
+
+pub fn is_big(ver: u64) -> bool {
+  (BIG_VERSIONS..BLANK_VERSIONS).contains(&ver)
+}
 const WORDS: [&str; 6] = ["alpha", "beta", "gamma", "delta", "omega", "sigma"];
 const TAGS: [&str; 4] = ["red", "green", "blue", "grey"];
 
@@ -177,6 +185,13 @@ pub fn make_doc(profile: Profile, id: &str, ver: u64) -> Document {
     fields.insert("body".into(), json!(["", "?!", "... --"][(ver % 3) as usize]));
     fields.insert("n".into(), json!(ver as i64));
     return Document { fields };
+  }
+  if is_big(ver) {
+    let extra = 300 + (nextr() % 6) as usize * 400;
+    let span = 50 + (nextr() % 4000);
+    for i in 0..extra {
+      words.push(format!("w{}", (nextr() % span) + (i as u64 % 7)));
+    }
   }
   fields.insert("body".into(), json!(words.join(" ")));
   let tag = match nextr() % 5 {
@@ -411,6 +426,11 @@ pub struct GenParams {
   /// weights: new_writer, add, delete, commit, rollback, drop, compact, reopen, relocate,
   /// open_reader, check_reader
   pub weights: [u32; 11],
+  /// one add in `big_every` carries a long document (0 = never)
+  pub big_every: u32,
+  /// an add is followed by a burst of this many further adds on consecutive
+  /// ids with probability 1/4 (0 = never): segments with hundreds of documents
+  pub burst: u32,
 }
 
 /// Generates a history that is valid in its own context (ops refer to live
@@ -452,9 +472,21 @@ pub fn gen_ops(rng: &mut Rng, cfg: &Cfg, p: &GenParams) -> Vec<Op> {
       1 => {
         let h = *rng.pick(&live);
         let id = rng.pick(&ids).clone();
-        let ver = next_ver;
+        let mut ver = next_ver;
         next_ver += 1;
+        if p.big_every > 0 && rng.chance(1, p.big_every as u64) {
+          ver += BIG_VERSIONS;
+        }
         ops.push(Op::Add { h, id, ver });
+        if p.burst > 0 && rng.chance(1, 4) {
+          let start = rng.usize(ids.len());
+          let n = 1 + rng.usize(p.burst as usize);
+          for k in 0..n {
+            let id = ids[(start + k) % ids.len()].clone();
+            ops.push(Op::Add { h, id, ver: next_ver });
+            next_ver += 1;
+          }
+        }
       }
       2 => {
         let h = *rng.pick(&live);
